@@ -151,7 +151,7 @@ func runC18(c *Ctx) {
 		})
 		// every returned value originates in the range function
 		for _, ret := range returnsOf(e) {
-			srcs, _ := p.Sources(ret.Results[0])
+			srcs, _ := p.Sources(RetVals(ret)[0])
 			for _, l := range srcs {
 				in, isInstr := l.(ssa.Instruction)
 				from := false
